@@ -137,6 +137,14 @@ def run(R):
                         R.failB(dict(c, sample=r_["i"], opacities=r_["xhat"], error=e_hat, best=e_star),
                                 "opacities of sample %d (fitted last) are not optimal given the intensities: error %.6g, optimum %.6g" % (r_["i"], e_hat, e_star), sig + ":last-factor-P")
                         break
+                elif r_["gap"] is not None:
+                    # exact optimum not found: Frank-Wolfe gap at the clipped answer bounds the optimum from below (theorem Dreye.Cert.gap_bound)
+                    f_lb = r_["fclip"] - r_["gap"]
+                    e_hat, e_lb = fsqrt(r_["fhat"]), fsqrt(f_lb if f_lb > 0 else 0)
+                    if e_hat > e_lb + 1e-3 * (float(np.max(np.abs(c["B"]))) + 1):
+                        R.failA(dict(c, sample=r_["i"], error=e_hat, lower_bound=e_lb), "optimal opacities could not be established (no exact KKT point; Frank-Wolfe lower bound %.6g vs error %.6g)" % (e_lb, e_hat))
+                    else:
+                        R.count("last-factor-P:certified-by-FW-gap")
                 else:
                     R.failA(dict(c, sample=r_["i"]), "optimal opacities could not be established exactly")
         else:
